@@ -102,8 +102,9 @@ def parseGEntry (ann : Option String) : GEntry :=
 structure Recovered where
   toks : List String
   ok : Bool
-  skew : Bool      -- some partition replayed with fewer index entries than batches
-  junk : Bool      -- groups.log / pids.log had trailing bytes that replay ignored (and start-up did not truncate)
+  skew : Bool      -- the image has a segment with more complete batches than complete index entries (a torn append)
+  junk : Bool      -- groups.log had trailing bytes that replay ignored
+  truncs : List String := []   -- `T:path:n` the truncations start-up performs on this image, sorted
 
 def dataDir := "/d"
 
@@ -115,13 +116,13 @@ def recover (dict : List (Bytes × String)) (fs : FS) : Recovered :=
   | none =>
     -- no meta.json: nothing is loaded, the cluster starts fresh with its seed topic
     let z := ["t0-0", "t0-1"].flatMap fun tp => [s!"p:{tp}:0:0:0:0", s!"u:{tp}:-", s!"a:{tp}:-", s!"c:{tp}:-"]
-    ⟨["ok"] ++ files ++ ["t:t0:2"] ++ z, true, false, false⟩
+    ⟨["ok"] ++ files ++ ["t:t0:2"] ++ z, true, false, false, []⟩
   | some metaBytes =>
     let jsonOK := fun (name : String) => match content (dataDir ++ "/" ++ name) with
       | none => true
       | some bs => (lookup dict bs).isSome
     let allOK := (lookup dict metaBytes).isSome && ["broker_configs.json", "topics.json", "acls.json", "sasl.json", "quotas.json", "seq_windows.json"].all jsonOK
-    if !allOK then ⟨["fail"] ++ files, false, false, false⟩ else
+    if !allOK then ⟨["fail"] ++ files, false, false, false, []⟩ else
     let topics : List (String × Nat) :=
       match (content (dataDir ++ "/topics.json")).bind (lookup dict) with
       | some ann =>
@@ -141,11 +142,17 @@ def recover (dict : List (Bytes × String)) (fs : FS) : Recovered :=
         if p.startsWith dir && p.endsWith ".dat" then ((p.drop dir.length).dropEnd 4).toString.toNat? else none
       let bases := sortBy (fun a b => decide (a < b)) bases
       let segs := bases.map fun b =>
-        (b, (content (dir ++ toString b ++ ".dat")).getD [], (content (dir ++ toString b ++ ".idx")).getD [])
+        (b, (content (dir ++ toString b ++ ".dat")).getD [], content (dir ++ toString b ++ ".idx"))
       let snapBytes := content (dir ++ "snapshot.json")
       let snap := (snapBytes.bind (lookup dict)).bind parseSnap
-      (tp, loadPartition crc32c segs snapBytes.isSome snap)
-    let pTok := loaded.flatMap fun (tp, pt) =>
+      -- classification only: batches in the segment file counted without looking at the index
+      let torn := segs.any fun (_, raw, idx) => decide ((idx.getD []).length < (loadSegment crc32c raw none).length * indexEntrySize)
+      let tr := segs.flatMap fun (b, raw, idx) =>
+        let (td, ti) := segmentTruncs crc32c raw idx
+        (match td with | some n => [s!"T:{dir}{b}.dat:{n}"] | none => []) ++
+        (match ti with | some n => [s!"T:{dir}{b}.idx:{n}"] | none => [])
+      (tp, loadPartition crc32c segs snapBytes.isSome snap, torn, tr)
+    let pTok := loaded.flatMap fun (tp, pt, _, _) =>
       let bs := pt.batches.map (·.1)
       let rc := bs.filter (fun b => b.first < pt.lso)
       let ab := match rc.getLast? with
@@ -161,7 +168,12 @@ def recover (dict : List (Bytes × String)) (fs : FS) : Recovered :=
     let commits := replayCommits gEntries
     let gTok := ["g0", "g1"].flatMap fun g =>
       sortStr ((commits.filter (fun c => c.1.1 == g && c.2 ≥ 0)).map fun c => s!"g:{g}:{c.1.2}:{c.2}")
-    ⟨["ok"] ++ files ++ tTok ++ pTok ++ gTok, true, loaded.any (·.2.skew), gJunk⟩
+    let logTr := ["pids.log", "groups.log"].flatMap fun n =>
+      match (content (dataDir ++ "/" ++ n)).bind (stateLogTrunc crc32c) with
+      | some k => [s!"T:{dataDir}/{n}:{k}"]
+      | none => []
+    ⟨["ok"] ++ files ++ tTok ++ pTok ++ gTok, true, loaded.any (·.2.2.1), gJunk,
+     sortStr (loaded.flatMap (·.2.2.2) ++ logTr)⟩
 
 /-! ### Spec (on the implementation's tokens) -/
 
@@ -317,6 +329,7 @@ structure St where
   img1 : FS := []
   k1 : Nat := 0
   skew1 : Bool := false
+  truncs1 : List String := []
   junk1 : Bool := false
   trace2 : List Item := []
 
@@ -356,12 +369,14 @@ def verdictOf (toks : List String) (reqs : List Req) (skew junk : Bool) (extra :
     let crashAborted := reqs.zipIdx.any fun (r, j) =>
       r.kind == "P" && r.gen < lastGen && r.args.getD 1 "" == "t" && r.args.getD 2 "" == pid &&
       !((reqs.drop (j + 1)).any fun e => e.gen == r.gen && e.kind == "E" && e.acked && e.args.head? == some pid)
-    -- the two confirmed defects get their stable key only for the clauses they explain
-    if skew && ["uncommitted-txn-visible", "aborted-txn-visible", "committed-txn-hidden", "acked-produce-hidden-from-read-committed",
+    -- stable keys of the three defects this check found, each only for the clauses it explains. The open one (crash-aborted
+    -- transaction without marker) is decided from the requests alone and goes first; the two repaired ones are classes of
+    -- crash images (torn append visible in the image / torn state-log tail in the lineage) and are plain violations now.
+    if crashAborted && ["uncommitted-txn-visible", "aborted-txn-visible", "committed-txn-hidden"].contains kind then
+      "0:crash-aborted-txn-has-no-marker"
+    else if skew && ["uncommitted-txn-visible", "aborted-txn-visible", "committed-txn-hidden", "acked-produce-hidden-from-read-committed",
                 "close-restart-differs", "lso-not-at-open-transaction"].contains kind then "0:index-segment-skew-after-torn-append"
     else if junk && kind == "acked-commit-lost" then "0:state-log-torn-tail-kept"
-    else if crashAborted && ["uncommitted-txn-visible", "aborted-txn-visible", "committed-txn-hidden"].contains kind then
-      "0:crash-aborted-txn-has-no-marker"
     else "0:" ++ kind
 
 /-- model tokens followed by the implementation's unmodelled tokens (`d:` `x:`). -/
@@ -388,14 +403,21 @@ def step (st : St) (line : String) : St × String :=
       let reqs := reqsOf 1 st.trace1 k'
       let v := verdictOf toks reqs rec_.skew rec_.junk
       let nt := boolStr (k' > 0)
-      ({ st with img1 := img, k1 := k', skew1 := rec_.skew, junk1 := rec_.junk, trace2 := [] },
+      ({ st with img1 := img, k1 := k', skew1 := rec_.skew, junk1 := rec_.junk, truncs1 := rec_.truncs, trace2 := [] },
        s!"R {withUnmodelled rec_.toks toks} | {v} | {nt} | {clauseOf toks reqs}")
     | _ => (st, "* | 0:harness-failed | 0")
   | "cont" :: _ =>
     match it with
     | "T" :: items =>
       let tr := parseTrace items
-      ({ st with trace2 := tr, dict := st.dict ++ buildDict tr }, s!"* | {traceVerdict st.img1 tr}")
+      -- start-up of the instance this workload runs on: its truncations (recorded before the first request) must be
+      -- the ones the model's start-up performs on the crash image
+      let recorded := sortStr ((tr.takeWhile fun i => match i.op with | .mark => !i.text.startsWith "Q:" | _ => true).filterMap fun i =>
+        match i.op with
+        | .truncate p n => some s!"T:{p}:{n}"
+        | _ => none)
+      let mout := if recorded == st.truncs1 then "*" else s!"T! start-up truncations: model {st.truncs1} recorded {recorded}"
+      ({ st with trace2 := tr, dict := st.dict ++ buildDict tr }, s!"{mout} | {traceVerdict st.img1 tr}")
     | _ => (st, "* | 0:workload-failed | 0")
   | "crash2" :: k :: tail :: _ =>
     let ops := st.trace2.map (·.op)
